@@ -1,7 +1,7 @@
 (* Property C13 — ToCSV followed by ReadCSV reproduces the frame.
-   Statements only; proofs are in Proofs/CsvWriteProofs.v and Proofs/CsvReadProofs.v. *)
+   Statements only; proofs are in Proofs/CsvWriteProofs.v, Proofs/CsvReadProofs.v and Proofs/CsvRoundProofs2.v. *)
 From QF Require Import Base.Prelude Model.FastCsv Model.CsvSpec Model.CsvWrite Model.CsvRead
-  Proofs.CsvSpecProofs Proofs.CsvWriteProofs Proofs.CsvReadProofs.
+  Proofs.CsvSpecProofs Proofs.CsvWriteProofs Proofs.CsvReadProofs Proofs.CsvRoundProofs2.
 Local Open Scope N_scope.
 
 (* the encoding/csv writer (UseCRLF = false) only produces renderings: LF row ends, final line break,
@@ -81,8 +81,8 @@ Example C13_one_column_empty_cell :
     = Ok [([83], ColString [Some [97]; Some [98]])].
 Proof. vm_compute. repeat split. Qed.
 
-(* not proved here (covered by the engine only): enum columns without declared values (non-strict factory),
-   and the link from read_csv_spec to the buffer-level scanner (C12_fragmentation_full_statement). *)
+(* the statement the first wave left open (enum columns without declared values: the read succeeds and returns
+   the same column names); now a theorem, see C13_nonstrict_enum below, and superseded by C13_roundtrip_enum *)
 Definition C13_nonstrict_enum_full_statement : Prop :=
   forall (format_float : N -> bytes) (parse_float : bytes -> option N),
   (forall x, is_nan_bits x = false ->
@@ -96,3 +96,411 @@ Definition C13_nonstrict_enum_full_statement : Prop :=
       <= enum_max_cardinality)%nat) ->
   exists g, read_csv_spec atoi parse_float atob (read_conf_for e (tc_header tc) wf) doc = Ok g /\
             map fst g = map fst wf.
+
+Theorem C13_nonstrict_enum : C13_nonstrict_enum_full_statement.
+Proof. exact nonstrict_enum_names. Qed.
+Print Assumptions C13_nonstrict_enum.
+
+(* ================================================================ second wave *)
+
+(* ---- 1. enum columns without declared values (ColEnum [] l: the reader is told "enum" only; this is also what
+   read_conf_for declares for a column whose value table is empty).  The non-strict factory derives the value
+   table [first_occ e cells]: the non-null cell strings in FIRST-OCCURRENCE order, each once. *)
+Theorem C13_first_occurrence_order (e : bool) (cells : list bytes) :
+  first_occ e cells = dedup_first (kept_cells e cells).
+Proof. exact (first_occ_spec e cells). Qed.
+Print Assumptions C13_first_occurrence_order.
+
+(* The round trip for strict AND non-strict enum columns (this generalises C13_roundtrip: for a frame whose enum
+   columns all carry values, card_ok is true and readback_col = norm_col).  A non-strict column comes back with
+   the same cells as strings (norm_cell as for strings) and the re-derived value table:
+     readback_col e (ColEnum [] l) = ColEnum (first_occ e (map opt_str l)) (map (norm_cell e) l).
+   RANK ORDER: enum comparisons (Sort, <, >) use the position in the value table.  After the round trip without
+   declared values that position is the position of the first occurrence in the written column - in general NOT
+   the order of the original table (C13_rank_order_changes below); unused values of the original table are gone.
+   Extra premise: at most 255 distinct non-null strings (card_ok; C13_nonstrict_limit_sharp: it is necessary). *)
+Theorem C13_roundtrip_enum
+  (format_float : N -> bytes) (parse_float : bytes -> option N)
+  (float_roundtrip : forall x, is_nan_bits x = false ->
+       format_float x <> [] /\ no_cr (format_float x) = true /\ parse_float (format_float x) = Some x)
+  (f : frame) (tc : to_conf) (wf : frame) (doc : bytes) (e : bool) :
+  iter_cols f tc = Ok wf ->
+  to_csv format_float f tc = Ok doc ->
+  rt_premises e (frame_len f) wf = true ->
+  forallb (fun nc => card_ok e (snd nc)) wf = true ->
+  read_csv_spec atoi parse_float atob (read_conf_for e (tc_header tc) wf) doc
+  = Ok (map (fun nc => (fst nc, readback_col e (snd nc))) wf).
+Proof. exact (roundtrip2 format_float parse_float float_roundtrip f tc wf doc e). Qed.
+Print Assumptions C13_roundtrip_enum.
+
+Theorem C13_readback_strict (e : bool) (c : column) :
+  strict_enum c = true -> readback_col e c = norm_col e c /\ card_ok e c = true.
+Proof. exact (fun H => conj (readback_strict e c H) (card_strict e c H)). Qed.
+Print Assumptions C13_readback_strict.
+
+Theorem C13_nonstrict_limit_sharp (parse_float : bytes -> option N) (e : bool) ev (cells : list bytes) :
+  ev = None \/ ev = Some [] ->
+  (enum_max_cardinality < length (first_occ e cells))%nat ->
+  column_to_data atoi parse_float atob e DEnum ev cells = Fail.
+Proof. exact (nonstrict_overflow parse_float e ev cells). Qed.
+Print Assumptions C13_nonstrict_limit_sharp.
+
+(* 256 distinct strings: one too many; 255 are fine *)
+Example C13_nonstrict_limit_example :
+  let cells := map (fun i => [N.of_nat i; 65]) (seq 0 256) in
+  (enum_max_cardinality < length (first_occ false cells))%nat /\
+  column_to_data atoi (fun _ => None) atob false DEnum None cells = Fail /\
+  card_ok false (ColEnum [] (map Some (tl cells))) = true.
+Proof. cbv zeta. split; [vm_compute; lia|]. split; vm_compute; reflexivity. Qed.
+
+(* ---- 1b. exactly what is needed about CR.  The property excludes CR from all strings; the model needs less: the
+   scanner returns the written records iff no record's LAST field ends in CR (Reader.Next drops a CR in front of
+   the row's line feed even when the field was quoted).  So: rt_premises_sharp = rt_premises without the CR
+   conditions, and last_col_ok: no string of the LAST written column ends in CR, nor does the last column name
+   when the header row is written.  CR anywhere else (inside a string, at the end of a string of another
+   column, in another column's name) survives the round trip. *)
+Theorem C13_roundtrip_cr_sharp
+  (format_float : N -> bytes) (parse_float : bytes -> option N)
+  (float_roundtrip : forall x, is_nan_bits x = false ->
+       format_float x <> [] /\ no_cr (format_float x) = true /\ parse_float (format_float x) = Some x)
+  (f : frame) (tc : to_conf) (wf : frame) (doc : bytes) (e : bool) :
+  iter_cols f tc = Ok wf ->
+  to_csv format_float f tc = Ok doc ->
+  rt_premises_sharp e (frame_len f) wf = true ->
+  last_col_ok (tc_header tc) wf = true ->
+  forallb (fun nc => card_ok e (snd nc)) wf = true ->
+  read_csv_spec atoi parse_float atob (read_conf_for e (tc_header tc) wf) doc
+  = Ok (map (fun nc => (fst nc, readback_col e (snd nc))) wf).
+Proof. exact (roundtrip_sharp format_float parse_float float_roundtrip f tc wf doc e). Qed.
+Print Assumptions C13_roundtrip_cr_sharp.
+
+Theorem C13_cr_sharp_generalises (e : bool) (n : nat) (f : frame) :
+  rt_premises e n f = true -> rt_premises_sharp e n f = true.
+Proof. exact (rt_premises_weaken e n f). Qed.
+Print Assumptions C13_cr_sharp_generalises.
+
+(* premises satisfiable: CR in a column name, inside and at the end of strings of the first column, inside a
+   string of the last column; and the condition on the last column is needed (C13_needs_no_trailing_cr below) *)
+Definition ex4_f : frame :=
+  [([13; 97], ColString [Some [120; 13]; Some [13]; Some [13; 10; 13]]);
+   ([98], ColString [Some [13; 121]; None; Some [122; 13; 122]])].
+Example C13_roundtrip_cr_sharp_example :
+  let tc := mkToConf true None in
+  rt_premises false (frame_len ex4_f) ex4_f = false /\
+  rt_premises_sharp false (frame_len ex4_f) ex4_f = true /\ last_col_ok true ex4_f = true /\
+  match to_csv (fun _ => []) ex4_f tc with
+  | Ok doc => read_csv_spec atoi (fun _ => None) atob (read_conf_for false true ex4_f) doc
+  | _ => Fail end
+  = Ok (map (fun nc => (fst nc, readback_col false (snd nc))) ex4_f).
+Proof. vm_compute. repeat split. Qed.
+
+(* ---- 2. through the BUFFER-level reader (Model/FastCsv.v, the model engine csv executes against
+   internal/fastcsv): whatever the chunks the io.Reader delivers (non-empty; C12_zero_byte_read_panics) and
+   whether EOF comes with the last data or separately.  Uses C12's buffer_refines_stream. *)
+Theorem C13_roundtrip_any_fragmentation
+  (format_float : N -> bytes) (parse_float : bytes -> option N)
+  (float_roundtrip : forall x, is_nan_bits x = false ->
+       format_float x <> [] /\ no_cr (format_float x) = true /\ parse_float (format_float x) = Some x)
+  (f : frame) (tc : to_conf) (wf : frame) (doc : bytes) (e : bool) (chunks : list bytes) (t : rterm) :
+  iter_cols f tc = Ok wf ->
+  to_csv format_float f tc = Ok doc ->
+  rt_premises e (frame_len f) wf = true ->
+  forallb (fun nc => card_ok e (snd nc)) wf = true ->
+  Forall (fun c : bytes => c <> []) chunks -> concat chunks = doc -> (t = TEofSep \/ t = TEofWith) ->
+  read_csv_buf atoi parse_float atob (read_conf_for e (tc_header tc) wf) chunks t
+  = Ok (map (fun nc => (fst nc, readback_col e (snd nc))) wf).
+Proof. exact (roundtrip_fragmented format_float parse_float float_roundtrip f tc wf doc e chunks t). Qed.
+Print Assumptions C13_roundtrip_any_fragmentation.
+
+(* the reader declares the TYPES only (no EnumVals), whatever value tables the written enum columns have *)
+Theorem C13_roundtrip_undeclared_enum_values
+  (format_float : N -> bytes) (parse_float : bytes -> option N)
+  (float_roundtrip : forall x, is_nan_bits x = false ->
+       format_float x <> [] /\ no_cr (format_float x) = true /\ parse_float (format_float x) = Some x)
+  (f : frame) (tc : to_conf) (wf : frame) (doc : bytes) (e : bool) (chunks : list bytes) (t : rterm) :
+  iter_cols f tc = Ok wf ->
+  to_csv format_float f tc = Ok doc ->
+  rt_premises e (frame_len f) (forget_frame wf) = true ->
+  forallb (fun nc => card_ok e (snd nc)) (forget_frame wf) = true ->
+  Forall (fun c : bytes => c <> []) chunks -> concat chunks = doc -> (t = TEofSep \/ t = TEofWith) ->
+  read_csv_buf atoi parse_float atob (read_conf_for e (tc_header tc) (forget_frame wf)) chunks t
+  = Ok (map (fun nc => (fst nc, readback_col e (forget_vals (snd nc)))) wf).
+Proof. exact (roundtrip_undeclared format_float parse_float float_roundtrip f tc wf doc e chunks t). Qed.
+Print Assumptions C13_roundtrip_undeclared_enum_values.
+
+(* premises satisfiable (no non-NaN float, so the formatter is irrelevant); E has the value table [b; a], its
+   cells are a, null, b, a; Columns(order), no header; the document cut into chunks of 1, 2, 3, ... bytes.
+   Read back with the types only, E gets the table [a; b]: the rank order of a and b is REVERSED. *)
+Definition ex2_f : frame :=
+  [([73], ColInt [5; -1; 0; 7]%Z);
+   ([70], ColFloat [nan_bits; 0x7FF8000000000000; nan_bits; nan_bits]);
+   ([69], ColEnum [[98]; [97]] [Some [97]; None; Some [98]; Some [97]])].
+Definition ex2_tc : to_conf := mkToConf false (Some [[69]; [73]; [70]]).
+Definition ex2_wf : frame := Eval vm_compute in match iter_cols ex2_f ex2_tc with Ok w => w | _ => [] end.
+Definition ex2_doc : bytes := Eval vm_compute in match to_csv (fun _ => []) ex2_f ex2_tc with Ok d => d | _ => [] end.
+Fixpoint ex_chunks (fuel k : nat) (doc : bytes) : list bytes :=
+  match fuel, doc with
+  | S fuel', _ :: _ => firstn k doc :: ex_chunks fuel' (S k) (skipn k doc)
+  | _, _ => []
+  end.
+Definition ex2_chunks : list bytes := Eval vm_compute in ex_chunks 100 1 ex2_doc.
+
+Example C13_rank_order_changes :
+  iter_cols ex2_f ex2_tc = Ok ex2_wf /\ to_csv (fun _ => []) ex2_f ex2_tc = Ok ex2_doc /\
+  rt_premises true (frame_len ex2_f) (forget_frame ex2_wf) = true /\
+  forallb (fun nc => card_ok true (snd nc)) (forget_frame ex2_wf) = true /\
+  rt_premises true (frame_len ex2_f) ex2_wf = true /\
+  forallb (fun nc => card_ok true (snd nc)) ex2_wf = true /\
+  Forall (fun c : bytes => c <> []) ex2_chunks /\ concat ex2_chunks = ex2_doc /\ (2 < length ex2_chunks)%nat /\
+  read_csv_buf atoi (fun _ => None) atob (read_conf_for true false (forget_frame ex2_wf)) ex2_chunks TEofWith
+  = Ok [([69], ColEnum [[97]; [98]] [Some [97]; None; Some [98]; Some [97]]);
+        ([73], ColInt [5; -1; 0; 7]%Z);
+        ([70], ColFloat [nan_bits; nan_bits; nan_bits; nan_bits])] /\
+  read_csv_buf atoi (fun _ => None) atob (read_conf_for true false ex2_wf) ex2_chunks TEofSep
+  = Ok [([69], ColEnum [[98]; [97]] [Some [97]; None; Some [98]; Some [97]]);
+        ([73], ColInt [5; -1; 0; 7]%Z);
+        ([70], ColFloat [nan_bits; nan_bits; nan_bits; nan_bits])].
+Proof.
+  repeat split; try (vm_compute; reflexivity).
+  - vm_compute. repeat constructor; discriminate.
+  - vm_compute. lia.
+Qed.
+
+(* ================================================================ 3. from a physical frame *)
+
+From QF Require Import Model.Json Model.Observe.
+(* from here on [frame] is the physical frame of Model/Frame.v (columns, row index, error flag) *)
+From QF Require Import Model.Frame Model.Filter Model.Ops Model.TableSpec.
+
+(* The frame as the typed views deliver it (observe_frame: ColumnNames, ColumnTypes, one typed view per name -
+   what engine csv reads from the implementation and what frame_to_csv writes) is the logical table [abs f]:
+   same names, types, and cell (i, j) of the table is cell i of observed column j.  Any row index (permuted,
+   with repetitions, a subset), provided abs is defined (index within the columns, enum ranks valid:
+   C09_wf_abs).  Premise: unique names (C09_to_csv_duplicate_names). *)
+Theorem C13_observe_is_table (f : frame) (t : table) :
+  abs f = Ok t -> NoDup (col_names f) ->
+  exists o, observe_frame f = Ok o /\ table_of (length (ix f)) o = t
+    /\ Forall (fun nc => CsvSpec.col_len (snd nc) = length (ix f)) o
+    /\ Forall (fun nc => enum_in_vals (snd nc)) o.
+Proof. exact (observe_table f t). Qed.
+Print Assumptions C13_observe_is_table.
+
+(* The round trip from the physical frame through the buffer-level reader.
+   Premises, all of them: (1) abs f defined; (2) unique column names; (3) phys_premises e f - on the frame as
+   observed: at least one column, names accepted by qframe.New (non-empty, not quoted, no leading $) and
+   without CR, no CR in string / enum cells, every column of the frame's length, a null enum cell only with
+   EmptyNull or with "" among the column's values (or an empty value table); ints within int64 (always true in
+   Go; the model's ints are Z); (4) Columns(order) lists no name twice; (5) the strconv premise on
+   FormatFloat/ParseFloat for non-NaN values; (6) the io.Reader never returns 0 bytes without EOF.
+   NOT needed: the non-strict cardinality limit (an observed column with an empty value table has only null
+   cells), any property of the row index beyond (1).
+   Conclusion: the reader is configured from the written columns wf (types, the columns' value tables, Headers
+   when Header(false)); wf are the frame's columns, or its column of each name of Columns(order); the frame g
+   read back has wf's names, and as a table it is the table of wf with every cell normalised (norm_tcell: null
+   string/enum -> "", or "" -> null under EmptyNull; every NaN -> the one NaN; everything else identical,
+   floats bit for bit). *)
+Theorem C13_roundtrip_physical
+  (format_float : N -> bytes) (parse_float : bytes -> option N)
+  (float_roundtrip : forall x, is_nan_bits x = false ->
+       format_float x <> [] /\ no_cr (format_float x) = true /\ parse_float (format_float x) = Some x)
+  (f : frame) (t : table) (tc : to_conf) (doc : bytes) (e : bool) (chunks : list bytes) (term : rterm) :
+  abs f = Ok t -> NoDup (col_names f) ->
+  phys_premises e f = true ->
+  (forall order, tc_columns tc = Some order -> has_dup order = false) ->
+  frame_to_csv format_float f tc = Ok doc ->
+  Forall (fun c : bytes => c <> []) chunks -> concat chunks = doc -> (term = TEofSep \/ term = TEofWith) ->
+  exists o wf g,
+    observe_frame f = Ok o /\ table_of (length (ix f)) o = t /\
+    iter_cols o tc = Ok wf /\ (forall nc, In nc wf -> In nc o) /\
+    match tc_columns tc with None => wf = o | Some order => map fst wf = order end /\
+    read_csv_buf atoi parse_float atob (read_conf_for e (tc_header tc) wf) chunks term = Ok g /\
+    g = map (fun nc => (fst nc, readback_col e (snd nc))) wf /\
+    table_of (length (ix f)) g = norm_table e (table_of (length (ix f)) wf).
+Proof. exact (roundtrip_physical format_float parse_float float_roundtrip f t tc doc e chunks term). Qed.
+Print Assumptions C13_roundtrip_physical.
+
+(* without Columns(order), with or without header row: the table read back is abs f, normalised *)
+Theorem C13_roundtrip_physical_table
+  (format_float : N -> bytes) (parse_float : bytes -> option N)
+  (float_roundtrip : forall x, is_nan_bits x = false ->
+       format_float x <> [] /\ no_cr (format_float x) = true /\ parse_float (format_float x) = Some x)
+  (f : frame) (t : table) (hdr : bool) (doc : bytes) (e : bool) (chunks : list bytes) (term : rterm) :
+  abs f = Ok t -> NoDup (col_names f) ->
+  phys_premises e f = true ->
+  frame_to_csv format_float f (mkToConf hdr None) = Ok doc ->
+  Forall (fun c : bytes => c <> []) chunks -> concat chunks = doc -> (term = TEofSep \/ term = TEofWith) ->
+  exists o g,
+    observe_frame f = Ok o /\
+    read_csv_buf atoi parse_float atob (read_conf_for e hdr o) chunks term = Ok g /\
+    table_of (length (ix f)) g = norm_table e t.
+Proof. exact (roundtrip_physical_table format_float parse_float float_roundtrip f t hdr doc e chunks term). Qed.
+Print Assumptions C13_roundtrip_physical_table.
+
+(* with Columns(order), order without repetition: the table read back is Select(order...) of abs f (tselect of
+   Model/TableSpec.v, the specification of C10's Select), normalised *)
+Theorem C13_roundtrip_physical_columns
+  (format_float : N -> bytes) (parse_float : bytes -> option N)
+  (float_roundtrip : forall x, is_nan_bits x = false ->
+       format_float x <> [] /\ no_cr (format_float x) = true /\ parse_float (format_float x) = Some x)
+  (f : frame) (t : table) (hdr : bool) (order : list bytes) (doc : bytes) (e : bool)
+  (chunks : list bytes) (term : rterm) :
+  abs f = Ok t -> NoDup (col_names f) ->
+  phys_premises e f = true -> has_dup order = false ->
+  frame_to_csv format_float f (mkToConf hdr (Some order)) = Ok doc ->
+  Forall (fun c : bytes => c <> []) chunks -> concat chunks = doc -> (term = TEofSep \/ term = TEofWith) ->
+  exists o wf g t',
+    observe_frame f = Ok o /\ iter_cols o (mkToConf hdr (Some order)) = Ok wf /\
+    tselect t order = Some t' /\
+    read_csv_buf atoi parse_float atob (read_conf_for e hdr wf) chunks term = Ok g /\
+    table_of (length (ix f)) g = norm_table e t'.
+Proof.
+  exact (roundtrip_physical_columns format_float parse_float float_roundtrip f t hdr order doc e chunks term).
+Qed.
+Print Assumptions C13_roundtrip_physical_columns.
+
+(* for every well-formed frame (C10: what the library builds - equal physical lengths, index in range in any
+   order with or without repetitions, valid enum ranks) abs is defined *)
+Theorem C13_roundtrip_physical_wf
+  (format_float : N -> bytes) (parse_float : bytes -> option N)
+  (float_roundtrip : forall x, is_nan_bits x = false ->
+       format_float x <> [] /\ no_cr (format_float x) = true /\ parse_float (format_float x) = Some x)
+  (f : frame) (hdr : bool) (doc : bytes) (e : bool) (chunks : list bytes) (term : rterm) :
+  wf_frame f = true -> NoDup (col_names f) ->
+  phys_premises e f = true ->
+  frame_to_csv format_float f (mkToConf hdr None) = Ok doc ->
+  Forall (fun c : bytes => c <> []) chunks -> concat chunks = doc -> (term = TEofSep \/ term = TEofWith) ->
+  exists t o g,
+    abs f = Ok t /\ observe_frame f = Ok o /\
+    read_csv_buf atoi parse_float atob (read_conf_for e hdr o) chunks term = Ok g /\
+    table_of (length (ix f)) g = norm_table e t.
+Proof. exact (roundtrip_physical_wf format_float parse_float float_roundtrip f hdr doc e chunks term). Qed.
+Print Assumptions C13_roundtrip_physical_wf.
+
+(* the strconv premise (5) is satisfiable - so none of the theorems above is vacuous - and the theorems do not
+   depend on how floats are printed: here with a stand-in formatter (the decimal digits of the bit pattern) a
+   frame with +Inf, -0, 1.5, the largest subnormal and two NaN payloads goes through; Inf, -0 etc. come back
+   bit-identical and both NaNs as the one NaN *)
+Theorem C13_float_premise_satisfiable : forall x,
+  is_nan_bits x = false ->
+  toy_format x <> [] /\ no_cr (toy_format x) = true /\ toy_parse (toy_format x) = Some x.
+Proof. exact toy_float_roundtrip. Qed.
+Print Assumptions C13_float_premise_satisfiable.
+
+Definition ex5_f : frame :=
+  mkFrame [([120], FCol [0x7FF0000000000000; 0x8000000000000000; 0x3FF8000000000000; 0x000FFFFFFFFFFFFF;
+                         0x7FF8000000000001; 0xFFF0000000000123]);
+           ([115], SCol [Some [97]; None; Some []; Some [98]; Some [99]; Some [100]])]
+          [5; 4; 3; 2; 1; 0]%nat false.
+Definition ex5_doc : bytes :=
+  Eval vm_compute in match frame_to_csv toy_format ex5_f (mkToConf true None) with Ok d => d | _ => [] end.
+Definition ex5_o : CsvSpec.frame :=
+  Eval vm_compute in match observe_frame ex5_f with Ok o => o | _ => [] end.
+Definition ex5_g : CsvSpec.frame :=
+  [([120], ColFloat [nan_bits; nan_bits; 0x000FFFFFFFFFFFFF; 0x3FF8000000000000; 0x8000000000000000;
+                     0x7FF0000000000000]);
+   ([115], ColString [Some [100]; Some [99]; Some [98]; Some []; Some []; Some [97]])].
+Example C13_roundtrip_with_floats :
+  wf_frame ex5_f = true /\ NoDup (col_names ex5_f) /\ phys_premises false ex5_f = true /\
+  frame_to_csv toy_format ex5_f (mkToConf true None) = Ok ex5_doc /\
+  observe_frame ex5_f = Ok ex5_o /\
+  read_csv_buf atoi toy_parse atob (read_conf_for false true ex5_o) [ex5_doc] TEofWith = Ok ex5_g /\
+  (exists t, abs ex5_f = Ok t /\ table_of 6 ex5_g = norm_table false t).
+Proof.
+  assert (wf_frame ex5_f = true) as W by (vm_compute; reflexivity).
+  assert (NoDup (col_names ex5_f)) as ND by (repeat constructor; cbn; intuition discriminate).
+  assert (phys_premises false ex5_f = true) as P by (vm_compute; reflexivity).
+  assert (frame_to_csv toy_format ex5_f (mkToConf true None) = Ok ex5_doc) as D by (vm_compute; reflexivity).
+  assert (observe_frame ex5_f = Ok ex5_o) as O by (vm_compute; reflexivity).
+  assert (read_csv_buf atoi toy_parse atob (read_conf_for false true ex5_o) [ex5_doc] TEofWith = Ok ex5_g) as R
+    by (vm_compute; reflexivity).
+  repeat (split; [assumption|]).
+  destruct (C13_roundtrip_physical_wf toy_format toy_parse toy_float_roundtrip ex5_f true ex5_doc false
+              [ex5_doc] TEofWith W ND P D) as (t & o & g & H1 & H2 & H3 & H4).
+  - repeat constructor. discriminate.
+  - cbn [concat]. apply app_nil_r.
+  - right. reflexivity.
+  - exists t. split; [exact H1|]. rewrite O in H2. inversion H2; subst o. rewrite R in H3. inversion H3; subst g.
+    exact H4.
+Qed.
+
+(* premises satisfiable: five columns (int, float with two NaN payloads, string with null / empty / quote-comma-LF
+   / leading blank, strict enum with a null and a value that needs quoting, enum without values = all null),
+   row index [2; 0; 0; 1] (a permutation with a repeated and a dropped row); EmptyNull; written with
+   Columns(reversed order) and without header; read back from chunks of 1, 2, 3, ... bytes *)
+Definition ex3_f : frame :=
+  mkFrame [([73], ICol [7; -3; 42; 0]%Z);
+           ([70], FCol [nan_bits; nan_bits; 0x7FF8000000000000; nan_bits]);
+           ([83], SCol [None; Some [34; 44; 10]; Some []; Some [32; 120]]);
+           ([69], ECol [1; 255; 0; 1] [[120]; [121; 44]] true);
+           ([68], ECol [255; 255; 255; 255] [] false)]
+          [2; 0; 0; 1]%nat false.
+Definition ex3_order : list bytes := [[68]; [69]; [83]; [70]; [73]].
+Definition ex3_doc : bytes :=
+  Eval vm_compute in match frame_to_csv (fun _ => []) ex3_f (mkToConf false (Some ex3_order)) with Ok d => d | _ => [] end.
+Definition ex3_chunks : list bytes := Eval vm_compute in ex_chunks 100 1 ex3_doc.
+
+Example C13_roundtrip_physical_example :
+  (exists t, abs ex3_f = Ok t) /\ NoDup (col_names ex3_f) /\ phys_premises true ex3_f = true /\
+  has_dup ex3_order = false /\
+  frame_to_csv (fun _ => []) ex3_f (mkToConf false (Some ex3_order)) = Ok ex3_doc /\
+  Forall (fun c : bytes => c <> []) ex3_chunks /\ concat ex3_chunks = ex3_doc /\
+  option_map (table_of 4)
+    (match observe_frame ex3_f with
+     | Ok o => match iter_cols o (mkToConf false (Some ex3_order)) with
+               | Ok wf => match read_csv_buf atoi (fun _ => None) atob (read_conf_for true false wf) ex3_chunks TEofSep with
+                          | Ok g => Some g | _ => None end
+               | _ => None end
+     | _ => None end)
+  = option_map (norm_table true)
+      (match abs ex3_f with Ok t => tselect t ex3_order | _ => None end).
+Proof.
+  split; [eexists; vm_compute; reflexivity|].
+  split; [repeat constructor; cbn; intuition discriminate|].
+  repeat split; try (vm_compute; reflexivity).
+  vm_compute. repeat constructor; discriminate.
+Qed.
+
+(* ---- each premise is needed *)
+Definition readback_of (e : bool) (f : frame) (tc : to_conf) : outcome CsvSpec.frame :=
+  do o <- observe_frame f; do wf <- iter_cols o tc; do doc <- frame_to_csv (fun _ => []) f tc;
+  read_csv_spec atoi (fun _ => None) atob (read_conf_for e (tc_header tc) wf) doc.
+
+(* (2) a repeated column name: ReadCSV reports "Duplicate columns detected" *)
+Example C13_needs_unique_names :
+  readback_of false (mkFrame [([97], ICol [1; 2]%Z); ([97], ICol [10; 20]%Z)] [0; 1]%nat false) (mkToConf true None) = Fail.
+Proof. vm_compute. reflexivity. Qed.
+
+(* (3) CR: a cell of the LAST column that ends in CR loses it (the writer quotes the field and keeps the CR, the
+   reader's Next() trims a CR in front of the row's line feed even when it was quoted); in the model a CR
+   anywhere else survives - the premise "no CR in strings" of the property is stronger than what is needed *)
+Example C13_needs_no_trailing_cr :
+  readback_of false (mkFrame [([97], SCol [Some [120; 13; 122]]); ([98], SCol [Some [120; 13]])] [0]%nat false)
+              (mkToConf true None)
+  = Ok [([97], ColString [Some [120; 13; 122]]); ([98], ColString [Some [120]])].
+Proof. vm_compute. reflexivity. Qed.
+
+(* (3) at least one column: a frame without columns writes an empty header line (or nothing at all) *)
+Example C13_needs_a_column :
+  readback_of false (mkFrame [] [] false) (mkToConf true None) = Fail /\
+  readback_of false (mkFrame [] [] false) (mkToConf false None) = Fail.
+Proof. vm_compute. split; reflexivity. Qed.
+
+(* (3) a null cell in a strict enum column whose values do not include "": without EmptyNull the empty field is
+   an unknown value for the strict factory; with EmptyNull it is null again *)
+Example C13_needs_readable_enum_null :
+  let f := mkFrame [([69], ECol [0; 255] [[120]] true)] [0; 1]%nat false in
+  readback_of false f (mkToConf true None) = Fail /\
+  readback_of true f (mkToConf true None) = Ok [([69], ColEnum [[120]] [Some [120]; None])].
+Proof. vm_compute. split; reflexivity. Qed.
+
+(* (4) Columns(order) with a repeated name passes ToCSV's checks and writes that column twice *)
+Example C13_needs_order_without_repetition :
+  let f := mkFrame [([97], ICol [1; 2]%Z); ([98], ICol [10; 20]%Z)] [0; 1]%nat false in
+  readback_of false f (mkToConf true (Some [[97]; [97]])) = Fail /\
+  readback_of false f (mkToConf true (Some [[98]; [97]])) = Ok [([98], ColInt [10; 20]%Z); ([97], ColInt [1; 2]%Z)].
+Proof. vm_compute. split; reflexivity. Qed.
+
+(* Still not proved: strconv.FormatFloat / ParseFloat (premise (5)) are not modelled here - C04 proves the ryu
+   side (shortest digits that read back) for the 'f' format used by ToJSON, the link to strconv's own
+   implementation is by the engines; IgnoreEmptyLines = true (C13_one_column_empty_cell shows why the round trip
+   needs it off for one-column frames); delimiters other than ',' (ToCSV always writes ','). *)
